@@ -139,6 +139,8 @@ def run(ctx):
                 if not same_spec(spec.dump_fm(cur), back):
                     r.oracle_fail("writer-output", req, f"cycle{cyc}:model-differs", "")
                     break
+            for c_, d_ in fmt.exchange_cycles(JSONWriter, JSONReader, sc.path("json"), cur, back, same_spec):
+                r.oracle_fail("writer-output", req, c_, d_)
         # ---- strings that no UTF-8 text can carry (a lone surrogate is a legal character of a Python string): the
         # S-expression transport to the Gallina model cannot carry them either, so this is the oracle alone
         for nm in ("A\ud800B", "\udfff", "x\udc80"):
